@@ -19,7 +19,7 @@ from ..index import AnalysisError
 from .. import astq
 from ._c09_prov import (Prov, Chain, NONE, alts, const, is_const, seq_shape, strip_views, interface_positions,
                         bind_interface, mentions, forwarded, proper_part, bool_behaviour, analysed,
-                        check_first_call_only)
+                        check_first_call_only, borrow)
 from .c09 import P, loc_of, fsig, tpos, TLoop, last_step_component, loop_plain
 
 SK = "sktime/forecasting/base/_sktime.py"
@@ -781,6 +781,66 @@ def r3_steps(ctx, repo):
         ctx.check(True if is_old(yv, "_y") else None, "R3", C + ":replays-own-data", "replays the remembered series", "replays %s" % res.fmt(yv), loc_of(pm[0]))
 
 
+# ------------------------------------------------------------------------------------------ R3: helpers the replay trusts
+FH_MOD = "sktime/forecasting/base/_fh.py"
+DT_MOD = "sktime/utils/datetime.py"
+
+
+def r3_helpers(ctx, repo):
+    """Contracts the moving-cutoff rules assume of their callees, decided from the callees' source:
+    ``_shift(x, by)`` is x + by in units of x's own frequency; the horizon's cutoff-dependent conversions are recomputed
+    for every cutoff (the cutoff moves with every update); the default splitter yields the windows C01 specifies."""
+    mod = repo.module(DT_MOD)
+    fn = repo.func(DT_MOD, "_shift")
+    res = analysed(ctx, Prov(repo).run_func(mod, fn))
+    C = "_shift"
+    loc0 = ctx.loc(mod, fn)
+    pn = astq.param_names(fn)
+    x, by = P(pn[0]), P(pn[1])
+    rets = [v for v, _ in res.returns]
+    verdict, why = None, ""
+    if len(rets) == 1 and isinstance(rets[0], tuple) and rets[0][:2] == ("binop", "Add") and x in rets[0][2:]:
+        step = rets[0][3] if rets[0][2] == x else rets[0][2]
+        verdict = True
+        for a in alts(step):
+            if a == by:
+                continue
+            if isinstance(a, tuple) and a[:2] == ("binop", "Mult") and by in a[2:]:
+                factor = a[3] if a[2] == by else a[2]
+                if factor == ("getattr", x, "freq"):
+                    continue  # Timestamp: an integer step is turned into an offset of x's frequency
+                verdict, why = False, "on some path the step is multiplied by %s before it is added (Period / integer arithmetic already counts in " \
+                    "units of x's own frequency, so the shift is scaled twice)" % res.fmt(factor)
+                break
+            verdict = None
+            break
+    ctx.check(verdict, "R3", C + ":unit-step", "_shift(x, by) = x + by in units of x's own frequency (offset only for Timestamps)",
+              "_shift does not move by `by` steps of x's frequency: %s" % (why or [res.fmt(v) for v in rets]), loc0,
+              witness={"input": "x = pd.Period('2000-01-01', freq='2D'), by=-1", "effect": "the replay of update_predict starts two periods before the data"})
+    # cutoff-dependent conversions of the horizon must be recomputed per cutoff (H1/H2)
+    fcls = repo.cls(FH_MOD + ":ForecastingHorizon")
+    for m in ("to_relative", "to_absolute"):
+        repo.func(FH_MOD, "ForecastingHorizon." + m)
+        fres = analysed(ctx, Prov(repo).run_method(fcls, m))
+        check_first_call_only(ctx, fres, "R3", "ForecastingHorizon." + m, loc_of)
+        cached = [(v, c) for v, c in fres.returns if isinstance(v, tuple) and v and v[0] in ("attr0", "attr@")]
+        key = "ForecastingHorizon.%s:depends-on-cutoff" % m
+        if cached:
+            ctx.violation("R3", key, "returns a value remembered on the horizon (%s) whatever `cutoff` is passed: after an update moved the "
+                          "cutoff the old conversion is reused" % fres.fmt(cached[0][0]), ctx.loc(fcls.module, fcls.methods[m]),
+                          witness={"history": "fh.to_relative(c1); fh.to_relative(c2) with c2 != c1 returns the first result"})
+        else:
+            ctx.ok("R3", key, "no result is served from a per-instance store", ctx.loc(fcls.module, fcls.methods[m]))
+    borrow(ctx, "C01", "check_window_class", ("SlidingWindowSplitter",), "R3", "update_predict:default-splitter-contract",
+           lambda r: r["construct"].startswith("SlidingWindowSplitter"), "the SlidingWindowSplitter contract the moving-cutoff replay relies on "
+           "(every feasible window is produced, train/test positions as specified)", roots=("sktime/forecasting/model_selection/_split.py",))
+    # with update_params=False the fitted model is reused at a later cutoff: fit-time and predict-time time axes must agree
+    borrow(ctx, "C11", "rule_time_axis", (), "R2", "update-without-refit:time-axis",
+           lambda r: r["construct"].startswith("PolynomialTrendForecaster"), "the agreement of the trend forecaster's fit-time and predict-time "
+           "time axis (it must not depend on how much data has been merged since the fit)",
+           roots=("sktime/forecasting/trend.py", "sktime/forecasting/base/adapters/_statsmodels.py", FH_MOD, DT_MOD))
+
+
 # ------------------------------------------------------------------------------------------ R4
 COMPOSITES = (
     (ENS, "EnsembleForecaster", True),
@@ -941,6 +1001,7 @@ def run(ctx):
     r2(ctx, repo)
     r3(ctx, repo)
     r3_steps(ctx, repo)
+    r3_helpers(ctx, repo)
     r4(ctx, repo)
     # floors (today: R1 10, R2 13, R3 86, R4 61 instances): a vanished family fails closed
     ctx.floor("R1", 8)
